@@ -49,6 +49,7 @@ inductive HOp where
   | clrerr
   | xferto (src : Val)
   | xfer (dest : Val)
+  | q (kind : String) (arg : Val)      -- a query / whole-tree call that must return normally and leave the list alone
   | bad
 
 def parseVals' (ts : List String) : List Val :=
@@ -75,6 +76,7 @@ def parseHOp (ts : List String) : HOp :=
   | ["clrerr"] => .clrerr
   | "xferto" :: rest => .xferto (parseVal rest).1
   | "xfer" :: rest => .xfer (parseVal rest).1
+  | "q" :: kind :: rest => .q kind (match rest with | [] => .nil | _ => (parseVal rest).1)
   | _ => .bad
 
 def showOut (op : ListOp) (o : Out) : String :=
@@ -116,6 +118,11 @@ partial def histModel (s : Stk) (ops : List HOp) (acc : List String) : List Stri
         | .stk _ c' xs' => obsModel { cfg := c', xs := xs' }
         | _ => "-"
       histModel s rest (s!"{b01 ok} dst\{{d}} {obsModel s}" :: acc)
+    | .q kind arg =>
+      let ret := if kind == "convert" then b01 arg.isStack ++ b01 arg.isCond
+                 else if kind == "xfer" then b01 (s.Transfer interp arg).2
+                 else "ok"
+      histModel s rest (s!"{ret} {obsModel s}" :: acc)
     | .bad => ("BADOP" :: acc).reverse
 
 /-- spec-side push, with or without a policy -/
@@ -182,6 +189,18 @@ partial def histSpec (st : SpecSt) (ops : List HOp) (acc : List String) : List S
           else let (d', ok) := specTransfer st.l dv; (obsSpec d', ok)
         | _ => ("-", false)
       histSpec st rest (s!"{b01 ok} dst\{{d}} {obsSpec st}" :: acc)
+    | .q kind arg =>
+      -- C08: the call returns normally; Convert* succeed exactly on initialised Stacks / Conditions (any form);
+      -- Transfer into anything that is not an initialised, writable Stack reports false
+      let ret := if kind == "convert" then b01 arg.isStack ++ b01 arg.isCond
+                 else if kind == "xfer" then
+                   (match arg with
+                    | .stk _ c xs =>
+                      let dv := specOfStk { cfg := c, xs := xs }
+                      if dv.c.ronly then "0" else b01 (specTransfer st.l dv).2
+                    | _ => "0")
+                 else "ok"
+      histSpec st rest (s!"{ret} {obsSpec st}" :: acc)
     | .bad => ("BADOP" :: acc).reverse
 
 /-- does every position argument address an existing element (C01's "addressing existing positions")? -/
@@ -210,6 +229,7 @@ partial def histInScope (st : SpecSt) (ops : List HOp) : Bool :=
           | .stk _ _ xs => if st.c.ronly then st else (specTransfer xs st).1
           | _ => st, true)
       | .xfer _ => (st, true)
+      | .q _ _ => (st, true)
       | .bad => (st, false)
     ok && histInScope st' rest
 
